@@ -427,8 +427,25 @@ MiscTrees == <<
   Lit("2147483648"), Pol("-", Lit("2147483648")), Pol("+", Lit("2147483648")), Pol("-", Pol("-", Lit("2147483648"))),
   Bin("-", Lit("0"), Lit("2147483648")), Bin("+", Pol("-", Lit("2147483648")), Lit("1")), Pol("-", Lit("2147483647")),
   Pol("-", Lit("99999999999")), Pol("-", Lit("0.5")), Pol("-", Lit("0")), Bin("=", Pol("-", Lit("0")), Lit("0")),
-  Inv(Pol("-", Lit("2147483648")), Fn("toString", <<>>)), Idx(Pol("-", Lit("2147483648")), Lit("0"))
+  Inv(Pol("-", Lit("2147483648")), Fn("toString", <<>>)), Idx(Pol("-", Lit("2147483648")), Lit("0")),
+  (* path steps spelled like words of the grammar (operators, literals; `as` `contains` `in` `is` are the  *)
+  (* four the grammar admits as identifiers): whatever Compile says of the gapless spelling it must say of every other     *)
+  Inv(PName, Id("div")), Inv(PName, Id("mod")), Inv(PName, Id("and")), Inv(PName, Id("or")), Inv(PName, Id("xor")),
+  Inv(PName, Id("implies")), Inv(PName, Id("true")), Inv(PName, Id("false")), 
+  Inv(PName, Id("is")), Inv(PName, Id("as")), Inv(PName, Id("in")), Inv(PName, Id("contains")),
+  Inv(Inv(PName, Id("div")), Id("given")), Inv(Id("Patient"), Id("mod")), Bin("=", Inv(PName, Id("div")), Lit("1"))
 >>
+
+(* A member step spelled like a word of the grammar.  Such a source is not a sentence of the specification's own grammar *)
+(* (the re-parsing laws do not speak of it); what is demanded of it is consistency across spellings only.                 *)
+GrammarWords == {"div", "mod", "and", "or", "xor", "implies", "true", "false", "is", "as", "in", "contains"}
+RECURSIVE HasKeywordStep(_)
+HasKeywordStep(t) ==
+  CASE t.k = "inv"  -> (t.m.k = "id" /\ t.m.name \in GrammarWords) \/ HasKeywordStep(t.e)
+    [] t.k = "bin"  -> HasKeywordStep(t.l) \/ HasKeywordStep(t.r)
+    [] t.k \in {"pol", "type"} -> HasKeywordStep(t.e)
+    [] t.k = "idx"  -> HasKeywordStep(t.e) \/ HasKeywordStep(t.i)
+    [] OTHER -> FALSE
 
 (* Shapes: the unit the generator explores.  Every shape yields candidate  *)
 (* trees over all leaf assignments; the generator keeps the K best under a *)
